@@ -255,6 +255,14 @@ def mutations():
                 break
     m('bits-overflow-low-bits-fine', lambda c: overflow_low_bits(c, 0x2201007f, 0x7f << 248), mine=False, commit=True)
     m('bits-overflow-low-bits-fine-2', lambda c: overflow_low_bits(c, 0x2101007f, 0x7f << 240), mine=False)
+    def commit_to_front(c):
+        if not has_wit(c):
+            return False
+        vo = c['txs'][0]['vout']
+        k_ = max(i for i, (_, sc) in enumerate(vo) if sc[:6] == MAGIC and len(sc) >= 38)
+        vo.insert(0, vo.pop(k_))                       # the commitment is coinbase output 0: still the (only, hence last) commitment
+    m('commit-at-output-0', commit_to_front)
+    m('commit-only-output', lambda c: (c['txs'][0].__setitem__('vout', [o for o in c['txs'][0]['vout'] if o[1][:6] == MAGIC][-1:]), None)[1] if has_wit(c) else False)
     m('commit-wrong', lambda c: c['txs'][0]['vout'].__setitem__(-1, (0, MAGIC + b'\x09' * 32)) if has_wit(c) else False, commit=False)
     m('commit-missing', lambda c: (c['txs'][0]['vout'].pop(), None)[1] if has_wit(c) else False, commit=False)
     m('commit-decoy-after', lambda c: c['txs'][0]['vout'].append((0, MAGIC + b'\x09' * 32)) if has_wit(c) else False, commit=False)
@@ -451,7 +459,39 @@ def check_clock_case(case):
     return {'nt': True, 'evals': 1, 'cls': ['default-clock:' + ('ok' if exp else 'future')]}
 
 
+def check_genesis_case(case):
+    """the selected chain's own genesis HEADER over another transaction list: judged like any other block (here: refused - the
+    list does not hash to the header's merkle root, is empty, pays too much ...); the genuine genesis block, where its proof of
+    work meets its target, is accepted"""
+    chain = case['chain']
+    libx.select(chain)
+    try:
+        g = bitcoin.core.coreparams.GENESIS_BLOCK
+        hdr80 = g.serialize()[:80]
+        hm = W.dec_header(W.Reader(hdr80))
+        cb = {'version': 1, 'vin': [(bytes(32), 0xffffffff, b'\x51\x51', 0xffffffff)], 'vout': [(case['value'], b'\x51')], 'wit': None, 'locktime': 0}
+        variants = {'empty': [], 'other-coinbase': [cb], 'two-coinbases': [cb, cb], 'genuine': None}
+        txs = variants[case['variant']]
+        if txs is None:
+            raw = g.serialize()
+            b = dict(hm, txs=[W.dec_tx(W.Reader(raw[81:]))])
+        else:
+            b = dict(hm, txs=txs)
+            raw = hdr80 + W.varint(len(txs)) + b''.join(W.enc_tx(t) for t in txs)
+        exp, why = block_ok(b, hm['time'] + 5, chain, True, True)
+        blk = libx.call('deserialize', CBlock.deserialize, raw)[1]
+        r = libx.call('CheckBlock[genesis-%s]' % case['variant'], CheckBlock, blk, cur_time=hm['time'] + 5, allowed=(ValidationError,))
+    finally:
+        libx.select('mainnet')
+    if (r[0] == 'ok') != exp:
+        raise Violation('block/genesis-header-%s-%s' % (case['variant'], 'accepts' if r[0] == 'ok' else 'rejects'),
+                        'CheckBlock on the %s genesis header with transaction list %r: library %s, reference %s (%s)' % (chain, case['variant'], r[0], exp, why))
+    return {'nt': True, 'evals': 1, 'cls': ['genesis:' + case['variant'], 'verdict:' + why]}
+
+
 def check_case(case):
+    if case['kind'] == 'genesis':
+        return check_genesis_case(case)
     if case['kind'] == 'clock':
         return check_clock_case(case)
     if case['kind'] == 'tx':
@@ -553,6 +593,10 @@ def t_big(ctx):
     if ctx.shard == 0:
         for off in (-10 ** 6, 0, 3600, 4200, 10800, 14400, 10 ** 6):
             ctx.run({'kind': 'clock', 'offset': off})
+        for chain_ in libx.CHAINS:
+            for variant_ in ('genuine', 'empty', 'other-coinbase', 'two-coinbases'):
+                for value_ in (50 * 10 ** 8, MAX + 1):
+                    ctx.run({'kind': 'genesis', 'chain': chain_, 'variant': variant_, 'value': value_})
         for cur in (0, 0.0, 1, 0.5, 1000000, 2 ** 31, 4 * 10 ** 9):
             for off in (0, 7199, 7200, 7201, 10 ** 5):
                 if cur + off < 2 ** 32:
